@@ -7,6 +7,7 @@ import (
 
 	"github.com/database64128/shadowsocks-go/conn"
 	"github.com/database64128/shadowsocks-go/socks5"
+	"github.com/database64128/shadowsocks-go/verifhook"
 	"github.com/database64128/shadowsocks-go/zerocopy"
 )
 
@@ -41,13 +42,16 @@ func (DirectPacketClientPacker) ClientPackerInfo() zerocopy.ClientPackerInfo {
 }
 
 func (p *DirectPacketClientPacker) updateDomainIPCache(ctx context.Context, targetAddr conn.Addr) error {
+	verifhook.At("direct.pack.beforeCheck", p, targetAddr.Domain())
 	if p.cachedDomain != targetAddr.Domain() {
 		ip, err := targetAddr.ResolveIP(ctx, p.network)
 		if err != nil {
 			return err
 		}
+		verifhook.At("direct.pack.afterResolve", p, targetAddr.Domain())
 		p.cachedDomain = targetAddr.Domain()
 		p.cachedDomainIP = ip
+		verifhook.At("direct.pack.afterStore", p, targetAddr.Domain())
 	}
 	return nil
 }
@@ -61,6 +65,7 @@ func (p *DirectPacketClientPacker) PackInPlace(ctx context.Context, b []byte, ta
 		if err != nil {
 			return
 		}
+		verifhook.At("direct.pack.beforeLoadIP", p, targetAddr.Domain())
 		destAddrPort = netip.AddrPortFrom(p.cachedDomainIP, targetAddr.Port())
 	}
 	packetStart = payloadStart
